@@ -25,3 +25,41 @@ class newton:
         "stops_or_warns": lambda: last("shouldStop") or warned(),
         "budget": lambda kmax: implies(kmax >= 0, count("F") <= kmax),
     }
+
+
+# ---- bookkeeping of duplicated external nodes (C01 / C03: `ext + edge.nodes` may repeat a node) ------------
+@contract("fggs.sum_product.rename_duplicate_nodes")
+class rename_duplicate_nodes:
+    sig = {"fgg": "opaque", "ext": "seq[Node]", "tensors": "opaque", "indexing": "opaque",
+           "connected": "set[Node]", "semiring": "opaque"}
+    properties = ["C01", "C03"]
+    locals = {"ext": "list[Node]"}
+    opaque_calls = ["eye"]
+    # the nodes passed in exist (their implicit ids are ids of live objects)
+    requires = lambda ext: forall(lambda j: implies(0 <= j and j < len(ext) and is_int_id(ext[j].id),
+                                                    alive(int_of(ext[j].id))), "int")
+    loops = {0: lambda ext, ext_orig, connected, _i0: (
+        len(ext) == _i0
+        and forall(lambda j, m: implies(0 <= j and j < m and m < _i0, ext[j] != ext[m]), "int,int")
+        and forall(lambda j: implies(0 <= j and j < _i0,
+                                     (ext[j] == ext_orig[j]) == (not exists(lambda m: 0 <= m and m < j and ext_orig[m] == ext_orig[j], "int"))
+                                     and ext[j].label == ext_orig[j].label
+                                     and implies(ext[j] != ext_orig[j],
+                                                 is_int_id(ext[j].id) and not was_alive(int_of(ext[j].id))
+                                                 and ext[j] in connected and ext_orig[j] in connected)), "int")
+        and forall(lambda j: implies(0 <= j and j < _i0, ext_orig[j] in ext), "int")
+        and forall(lambda j: implies(0 <= j and j < _i0 and is_int_id(ext[j].id), alive(int_of(ext[j].id))), "int")
+        and forall(lambda v: implies(v in old(connected), v in connected), "Node"))}
+    ensures = {
+        # same length, pairwise distinct, first occurrences kept, later occurrences replaced by fresh copies
+        "renamed_apart": lambda ext, result: (
+            len(result[0]) == len(ext)
+            and forall(lambda j, m: implies(0 <= j and j < m and m < len(ext), result[0][j] != result[0][m]), "int,int")
+            and forall(lambda j: implies(0 <= j and j < len(ext),
+                                         (result[0][j] == ext[j]) == (not exists(lambda m: 0 <= m and m < j and ext[m] == ext[j], "int"))
+                                         and result[0][j].label == ext[j].label), "int")),
+        "copies_are_connected": lambda ext, connected, result: forall(
+            lambda j: implies(0 <= j and j < len(ext) and result[0][j] != ext[j],
+                              result[0][j] in connected and ext[j] in connected), "int"),
+        "connected_only_grows": lambda connected: forall(lambda v: implies(v in old(connected), v in connected), "Node"),
+    }
